@@ -1,0 +1,38 @@
+//go:build verif
+
+// Contracts for package store, read by the verifier in /verif (build tag verif).
+// Comment-only file; see /verif/DESIGN.md section 3 for the syntax.
+
+package store
+
+//@ props C18
+//@ spec func ws(c int) bool
+//@   = c == 32 || c == 9 || c == 10 || c == 13
+//@ # equality of two RES values as the protocol defines it: same type and, per type, same data
+//@ spec func veq(ta int, ra string, ia string, ida string, tb int, rb string, ib string, idb string) bool
+//@   = ta == tb && ite(ta == 4, ia == ib, ite(ta == 1, ra == rb, ite(ta == 2 || ta == 3, ida == idb, true)))
+//@ lemma veq_refl(ta int, ra string, ia string, ida string)
+//@   ensures veq(ta, ra, ia, ida, ta, ra, ia, ida)
+//@ lemma veq_symm(ta int, ra string, ia string, ida string, tb int, rb string, ib string, idb string)
+//@   requires veq(ta, ra, ia, ida, tb, rb, ib, idb)
+//@   ensures veq(tb, rb, ib, idb, ta, ra, ia, ida)
+//@ lemma veq_trans(ta int, ra string, ia string, ida string, tb int, rb string, ib string, idb string, tc int, rc string, ic string, idc string)
+//@   requires veq(ta, ra, ia, ida, tb, rb, ib, idb) && veq(tb, rb, ib, idb, tc, rc, ic, idc)
+//@   ensures veq(ta, ra, ia, ida, tc, rc, ic, idc)
+//@
+//@ func (v Value) Equal(w Value) (res bool)
+//@   ensures sem: res == veq(int(v.Type), bytes(v.RawMessage), bytes(v.Inner), v.RID, int(w.Type), bytes(w.RawMessage), bytes(w.Inner), w.RID)
+//@
+//@ func (v *Value) UnmarshalJSON(data []byte) (err error)
+//@   requires v != nil
+//@   requires nonblank: exists(k, 0, len(data), !ws(data[k]))
+//@   requires noalias0: ref(v.RawMessage) != ref(data) && ref(data) != 0 && ref(data) < nextRef()
+//@   modifies all
+//@   dead return1
+//@   callsite Unmarshal#1 json.UnmarshalValueObject
+//@   ensures copied: imp(isNil(err), ref(v.RawMessage) != ref(data) || len(data) == 0)
+//@   loop 1 invariant 0 <= i && i < len(v.RawMessage) && exists(k, i, len(v.RawMessage), !ws(v.RawMessage[k]))
+//@
+//@ func (v Value) MarshalJSON() (out []byte, err error)
+//@   modifies alloc, bytes
+//@   ensures isNil(err) && imp(ref(v.RawMessage) != 0, same(out, v.RawMessage)) && imp(ref(v.RawMessage) == 0, bytes(out) == "null")
